@@ -571,10 +571,10 @@ func GenerateRun(seed uint64, opt GenOptions) (*World, []Op) {
 		if g.chance(5, 6) {
 			g.emit(g.genService(i), "")
 			ep, pods := g.genEndpoints(i, g.pick(4))
-			g.emit(ep, "")
 			for _, p := range pods {
 				g.emit(p, "")
 			}
+			g.emit(ep, "")
 		}
 	}
 	g.emit(mkTLSSecret("a", "tls1", g.nextCert()), "")
@@ -730,10 +730,10 @@ func (g *gen) genOp(name string) {
 		}
 		g.emit(g.genService(i), "create")
 		ep, pods := g.genEndpoints(i, 1+g.pick(3))
-		g.emit(ep, "create")
 		for _, p := range pods {
-			g.emit(p, "create")
+			g.emit(p, "create") // pods exist before the endpoints controller lists them
 		}
+		g.emit(ep, "create")
 	case "ep_scale", "ep_replace", "ep_ready":
 		keys := g.keys(KEndpoints)
 		if len(keys) == 0 {
